@@ -106,7 +106,7 @@ def task(name: str, prog: dict[str, Any]) -> dict[str, Any]:
             return out
         try:
             p2 = subprocess.run([sys.executable, "-m", "explorerscript.cli.decompile", "o.json"], cwd=d, env=env,
-                                capture_output=True, text=True, timeout=12)
+                                capture_output=True, text=True, timeout=20)
         except subprocess.TimeoutExpired:
             out.update({"status": "timeout", "where": "explorerscript/ssb_converting/decompiler (decompile CLI subprocess)"})
             return out
